@@ -25,7 +25,7 @@ func init() { core.Register(c17{}) }
 func (c17) ID() string    { return "C17" }
 func (c17) Level() string { return "exploration" }
 func (c17) Rule() string {
-	return "A case is a seeded history prefix plus 2-3 concurrent recording operations (record / annotate / policy stage / policy apply) and 0-2 concurrent tip readers, executed under one seeded interleaving of their reference operations (uniform-random or PCT-style priority schedules; in the thorough tier additionally every schedule with at most one pre-emption for two writers). Distinct = distinct (operation kinds, canonical schedule of reference operations); non-trivial = at least two writers were actually interleaved (some writer was pre-empted between two of its storage calls by another writer's reference write). Real-git slice (workers 0-3 of 16): two writers (record, annotate, policy stage) with their own gitinterface handles and RSL caches on one real repository whose log is empty or holds 1-2 entries; before writer A's k-th git subprocess (k swept 0-15 by case number) the whole operation of writer B runs; same obligations through plumbing."
+	return "A case is a seeded history prefix plus 2-3 concurrent recording operations (record / annotate / policy stage / policy apply) and 0-2 concurrent tip readers, executed under one seeded interleaving of their reference operations (uniform-random or PCT-style priority schedules; in the thorough tier additionally every schedule with at most one pre-emption for two writers). Distinct = distinct (operation kinds, canonical schedule of reference operations); non-trivial = at least two writers were actually interleaved (some writer was pre-empted between two of its storage calls by another writer's reference write). Real-git slice (workers 0-3 of 16): two writers (record, annotate, policy stage, approval commit) with their own gitinterface handles and RSL caches on one real repository whose log is empty or holds 1-2 entries; before writer A's k-th git subprocess (k swept 0-15 by case number) the whole operation of writer B runs; same obligations through plumbing."
 }
 func (c17) Components() map[string]string {
 	return map[string]string{
